@@ -132,6 +132,12 @@ func condHolds(cond string, v int) bool {
 	case strings.HasPrefix(cond, "<="):
 		n, _ := strconv.Atoi(cond[2:])
 		return v <= n
+	case strings.HasPrefix(cond, "range:"):
+		var lo, hi int
+		if _, err := fmt.Sscanf(cond[6:], "%d-%d", &lo, &hi); err != nil {
+			return false
+		}
+		return v >= lo && v <= hi
 	case strings.HasPrefix(cond, "in:"):
 		for _, s := range strings.Split(cond[3:], ",") {
 			if n, err := strconv.Atoi(s); err == nil && n == v {
